@@ -50,6 +50,12 @@ def gen_project(rng) -> Tuple[List[Unit], Dict[str, Any]]:
     else:
         line = "from pkg._b import *"
     reexp_src = [line, "__all__ = [%r]" % exported]
+    twice = rng.random() < 0.25
+    if twice:
+        # the same exported name imported a second time (repeated import, or star followed by a plain import)
+        second = {"rel": "from ._b import X", "abs": "from pkg._b import X", "renamed": "from pkg._b import X as Y",
+                  "star": rng.choice(["from pkg._b import X", "from pkg._b import *"])}[imp]
+        reexp_src.insert(1, second)
     reexp_q = "pkg" if kind == "package" else "pkg.api"
     units = []
     pkg_src = reexp_src if kind == "package" else ["'''pkg'''"]
@@ -75,7 +81,7 @@ def gen_project(rng) -> Tuple[List[Unit], Dict[str, Any]]:
         sibs.append(Unit("pkg." + cname, False, "\n".join(lines) + "\n", "pkg"))
         consumers.append({"module": "pkg." + cname, "form": form, "locals": local, "use": use, "cname": cname})
     meta = {"kind": kind, "import": imp, "objkind": objkind, "exported": exported, "reexporter": reexp_q,
-            "definer_all": b_all, "consumers": consumers}
+            "definer_all": b_all, "consumers": consumers, "imported_twice": twice}
     return [units[0]] + sibs, meta
 
 
@@ -88,11 +94,43 @@ def orders(units: List[Unit], rng, limit: int) -> List[List[int]]:
     return perms
 
 
+class Clock:
+    """stamps every object with the time it was registered and records when objects are moved"""
+
+    def __enter__(self):
+        from pydoctor import model
+        clk = self
+        self.t = 0
+        self.moves: Dict[int, int] = {}
+        self._ao = model.System.addObject
+        self._rp = model.Documentable.reparent
+
+        def addObject(system, obj):
+            clk.t += 1
+            if not hasattr(obj, "_verif_t"):
+                obj._verif_t = clk.t
+            return clk._ao(system, obj)
+
+        def reparent(obj, new_parent, new_name):
+            clk.t += 1
+            clk.moves.setdefault(id(obj), clk.t)
+            return clk._rp(obj, new_parent, new_name)
+        model.System.addObject = addObject
+        model.Documentable.reparent = reparent
+        return self
+
+    def __exit__(self, *a):
+        from pydoctor import model
+        model.System.addObject = self._ao
+        model.Documentable.reparent = self._rp
+
+
 def check_one(ctx: Ctx, units: List[Unit], meta, order: List[int], reqs, impls, pay) -> None:
     src = {u.qname: u.source for u in units}
     payload = {"units": src, "order": order, "meta": meta}
     try:
-        system = build_system(units, order=order)
+        with Clock() as clk:
+            system = build_system(units, order=order)
     except Exception as e:
         ctx.fail("analysis-crash:" + type(e).__name__, payload, f"{type(e).__name__}: {e}")
         return
@@ -109,6 +147,16 @@ def check_one(ctx: Ctx, units: List[Unit], meta, order: List[int], reqs, impls, 
         return
     if len(docs) != 1:
         ctx.fail(sigbase + ":documented-%d-times" % len(docs), payload, f"{[d.fullName() for d in docs]}")
+    # ... and really documented there: listed in its parent's contents all the way up to a root
+    o = obj
+    while o.parent is not None:
+        if o.parent.contents.get(o.name) is not o:
+            ctx.fail(sigbase + ":not-listed-in-parent", payload, f"{o.fullName()} is not in the contents of {o.parent.fullName()} (order {order})")
+            break
+        o = o.parent
+    else:
+        if o not in system.rootobjects:
+            ctx.fail(sigbase + ":unrooted", payload, f"{obj.fullName()} does not hang off a root")
     if moved_expected:
         stale = [k for k in system.allobjects if k == old_name or k.startswith(old_name + ".")]
         if stale:
@@ -130,6 +178,11 @@ def check_one(ctx: Ctx, units: List[Unit], meta, order: List[int], reqs, impls, 
             k = system.allobjects.get(c["module"] + ".K_" + c["cname"])
             if k is None or list(k.baseobjects) != [obj]:
                 how = "definer" if c["use"] == "XD" else "reexporter"
+                # was the consuming class analysed before or after the object was moved?
+                tm = clk.moves.get(id(obj))
+                when = "after-move" if (k is not None and tm is not None and getattr(k, "_verif_t", 0) > tm) else "before-move"
+                if how == "definer":
+                    how = "definer:" + when
                 ctx.fail(f"base-via-{how}:unresolved", payload,
                          f"{c['module']}.K bases {None if k is None else k.baseobjects!r} (order {order})")
             if k is not None:
